@@ -199,7 +199,10 @@ class Sched:
                 t.sem.release()
         for t in self.vts:
             if t.real is not None:
-                t.real.join(timeout=2.0)
+                try:
+                    t.real.join(timeout=2.0)
+                except RuntimeError:
+                    pass  # created but never started (the per-case alarm struck inside Thread.start())
 
 
 def make_shims(sched: Sched):
